@@ -88,6 +88,11 @@ def families(tier):
     add("F21-rewrite-under-ordered", [[Rule("a *", [Rule("c *", rewrite=True)], ordered=True, nkeys=2)],
                                       [Rule("a *", [Rule("c ~", rewrite=True, glob=True)], ordered=True, nkeys=2)],
                                       [Rule("b"), Rule("a *", [Rule("c *", rewrite=True), Rule("d", rewrite=True)], ordered=True, nkeys=2)]])
+    # F22: %global rules of two origins in force at once: an outer %global rule stays in force inside a block whose rule
+    #      brings %global child rules of its own (and below that block's children)
+    add("F22-nested-globals", [[Rule("g", glob=True), Rule("a", [Rule("h", glob=True), Rule("c")])],
+                               [Rule("g *", glob=True), Rule("a *", [Rule("h", glob=True)])],
+                               [Rule("a", [Rule("g", glob=True), Rule("c", [Rule("h", glob=True), Rule("e")])])]])
     if tier == "thorough":
         # F6: depth 3
         add("F6-depth3", [[Rule("a *", [Rule("c *", [Rule(shape(s, "e"), **f)])])]
